@@ -1569,8 +1569,11 @@ static int parse_loop_header(struct scanner_s *scanner, cif_container_tp *contai
                 /* check for data name duplication */
                 result = ((container == NULL) ? CIF_NOSUCH_ITEM
                             : cif_container_get_item_loop(container, (*next_namep)->string, NULL));
-                if ((result == CIF_NOSUCH_ITEM) && (container != NULL)) {
-                    /* the name must not duplicate an earlier one in this same header, either */
+                if (result == CIF_NOSUCH_ITEM) {
+                    /*
+                     * the name must not duplicate an earlier one in this same header, either, and it must be a valid
+                     * data name; that can be checked, and matters for building packets, even without a container
+                     */
                     result = find_header_name(*name_list_head, *next_namep);
                 }
                 switch (result) {
